@@ -114,6 +114,18 @@ def judge(ctx, x, form, off, p, c, x_us):
         ctx.violation(key, "timestamp written as %r, expected %r" % (got, exp),
                       {"input": repr(x), "form": form, "offset": off, "precision": p, "constraint": c, "got": got, "expected": exp})
         return got
+    # the same value through the property class that every timestamp slot of every object uses
+    ctx.ev()
+    try:
+        import stix2.properties as SP
+        via_prop = u.format_datetime(SP.TimestampProperty(precision=p, precision_constraint=c).clean(x, False)[0])
+        ctx.count("via_property_class")
+        if via_prop != exp:
+            ctx.violation(classify_text_mismatch(via_prop, exp), "a %s/%s timestamp property given %s writes %r, expected %r" % (p, c, form, via_prop, exp),
+                          {"input": repr(x), "form": form, "offset": off, "precision": p, "constraint": c, "got": via_prop, "expected": exp, "route": "TimestampProperty.clean"})
+    except Exception as e:
+        ctx.violation("raised-on-valid-input", "TimestampProperty(%s/%s).clean raised %s on a valid %s" % (p, c, type(e).__name__, form),
+                      {"input": repr(x), "precision": p, "constraint": c, "exception": repr(e)})
     # the clauses restated directly on the output (so they are checked even if oracle and output agree by construction)
     o = ts.text_us(got)
     unit = 1000000 if (p, c) == ("second", "exact") else 1000 if (p, c) == ("millisecond", "exact") else 1
